@@ -208,6 +208,14 @@ func sameGeom(a, b geom.Geometry) (res string) {
 	if sa.IsEmpty() != sb.IsEmpty() {
 		return "ne:emptiness"
 	}
+	// ExactEquals with a tolerance treats a NaN ordinate as equal to anything (d > tol is false):
+	// results with non-finite ordinates are equal only if they are the same value
+	if !finiteNode(lib.NodeOf(sa)) || !finiteNode(lib.NodeOf(sb)) {
+		if lib.Dump(sa) == lib.Dump(sb) {
+			return "eq"
+		}
+		return "ne:non-finite " + esc(sa.AsText()) + " <> " + esc(sb.AsText())
+	}
 	if geom.ExactEquals(sa, sb, geom.IgnoreOrder, geom.ToleranceXY(1e-9)) {
 		return "eq"
 	}
@@ -217,6 +225,22 @@ func sameGeom(a, b geom.Geometry) (res string) {
 		}
 	}
 	return "ne:" + esc(sa.AsText()) + " <> " + esc(sb.AsText())
+}
+
+func finiteNode(n *lib.Node) bool {
+	for _, v := range n.C {
+		for _, f := range v {
+			if math.IsNaN(f) || math.IsInf(f, 0) {
+				return false
+			}
+		}
+	}
+	for _, k := range n.Kids {
+		if !finiteNode(k) {
+			return false
+		}
+	}
+	return true
 }
 
 func nonEmptyGeoms(v reflect.Value) []geom.Geometry {
